@@ -190,4 +190,22 @@ def units(ctx):
            for c in yaqlized.sink_contracts()]
     us += [contract_unit(c, world_setup=yaqlized.setup_settings)
            for c in yaqlized.settings_contracts()]
+    from props._common import bounded_unit
+    us.append(bounded_unit(
+        'bounded:c07-canary', 'c07_canary.py',
+        'BOUNDED: every registered function / operator / access form x 8 '
+        'attack strings on a non-yaqlized canary; 15 yaqlization settings x '
+        '6 member names x 3 access forms against the reference policy; '
+        'non-name keys; auto-yaqlized results', timeout=600))
     return us
+
+
+def post(ctx, results):
+    from props._common import attach_replay
+    b = [o for r in results for o in r['obligations']
+         if o['name'] == 'bounded:c07-canary']
+    rep = b[0].get('replay') if b else None
+    if rep and rep.get('status') == 'failed':
+        attach_replay(results, lambda o: not o.get('bounded') and
+                      o.get('kind') in ('post', 'raises', 'flow'), rep)
+    return results
